@@ -37,6 +37,7 @@ REQUIRED_BUCKETS = ["outcome:ret", "outcome:exc", "outcome:base", "outcome:block
                     "helper:on-cancel-exc", "helper:done-exception", "helper:second-stop-request-during-clean-up", "stop-during-run",
                     "stop-during-restart-delay", "stop-before-start", "stop-after-completion", "double-start",
                     "cancel-swallowed", "cancel-converted-to-exception", "extra-task", "service-multi-task",
+                    "task-added-while-stop-is-waiting", "task-added-while-wait-is-waiting", "service:task-added-while-stopping",
                     "run-group", "run-group:actors-share-a-name", "restart-after-done",
                     "service-as-context-manager:body-raises", "service-as-context-manager:task-error-at-exit"]
 REQUIRED_COUNTERS = ["run_enters_observed", "external_calls_observed", "cases_run"]
@@ -101,6 +102,9 @@ def gen(rng: Any, tier: str, i: int) -> Any:
     if kind == "service":
         tasks = [{"d": rng.choice([0.0, 1.0, 3.0, 100.0]), "outcome": rng.choice(["ret", "exc", "exc2", "block", "base"]),
                   "on_cancel": rng.choice(["propagate", "propagate", "swallow", "exc"])} for _ in range(rng.randint(1, 4))]
+        if rng.random() < 0.3:
+            # one task registers a clean-up task with the service when it is cancelled or fails
+            rng.choice(tasks)["spawn"] = rng.choice([0.5, 0.5, 5.0, 1e6])
         drv = [[0.25, "start"], [rng.choice([0.5, 1.5, 2.5, 50.5]), rng.choice(["stop", "stop", "cancel+wait", "wait"])]]
         if rng.random() < 0.3:
             drv.append([drv[-1][0] + 1.25, "stop"])
@@ -125,6 +129,10 @@ def gen(rng: Any, tier: str, i: int) -> Any:
         o = rng.choice(["exc", "exc", "exc", "ret", "base", "block"]) if j < n - 1 else rng.choice(OUTCOMES)
         runs.append({"points": pts, "at": rng.randrange(pts), "outcome": o,
                      "on_cancel": rng.choice(["propagate", "propagate", "propagate", "swallow", "exc"])})
+        if rng.random() < 0.25:
+            # the run logic hands a clean-up / follow-up task to its service (self._tasks.add) on its way out: when it
+            # is cancelled, or when it fails - i.e. a task is added while a stop() / wait() is already waiting
+            runs[-1]["spawn"] = rng.choice([0.5, 0.5, 5.0, 1e6])
     limit = rng.choice([0, 1, 3, None])
     delay = rng.choice([0.0, 2.0, 2.0, 2.125, 0.125])  # incl. delays with a fractional part / below one second
     drv: list[list[Any]] = []
@@ -157,6 +165,12 @@ def _make_actor(script: list[dict[str, Any]], log: list[Any], name: str, display
             self.n = 0
             self.depth = 0
 
+        def _spawn(self, d: float) -> None:
+            tk = asyncio.create_task(asyncio.sleep(d))
+            self._tasks.add(tk)
+            log.append({"ev": "extra", "actor": name, "task": tk, "t": asyncio.get_event_loop().time(), "abs": True,
+                        "by": "run-logic", "d": d})
+
         async def _run(self) -> None:
             loop = asyncio.get_event_loop()
             i = self.n
@@ -176,6 +190,8 @@ def _make_actor(script: list[dict[str, Any]], log: list[Any], name: str, display
                         if j == spec["at"]:
                             if spec["outcome"] == "exc":
                                 how = "exc"
+                                if spec.get("spawn") is not None:
+                                    self._spawn(spec["spawn"])
                                 raise ValueError(f"scripted failure of run {i}")
                             if spec["outcome"] == "base":
                                 how = "base"
@@ -196,6 +212,8 @@ def _make_actor(script: list[dict[str, Any]], log: list[Any], name: str, display
                         how = "cancel->exc"
                         raise RuntimeError("raised while being cancelled")  # pylint: disable=raise-missing-from
                     how = "cancelled"
+                    if spec.get("spawn") is not None:
+                        self._spawn(spec["spawn"])
                     raise
             finally:
                 self.depth -= 1
@@ -242,6 +260,11 @@ async def _drive_actor(case: dict[str, Any], log: list[Any]) -> None:
                 if isinstance(e, BaseExceptionGroup):
                     entry["group"] = sorted(type(x).__name__ for x in e.exceptions)
             entry["tasks_at_call_all_done"] = all(x.done() for x in tasks_at_call)
+            # every task registered with the service before this call returned (also one added while it was waiting)
+            registered = set(a.tasks) | {e["task"] for e in log if e.get("ev") == "extra" and "task" in e}
+            entry["registered_pending_at_return"] = sorted(
+                ("added-by-" + next((e.get("by", "driver") for e in log if e.get("ev") == "extra" and e.get("task") is x), "service"))
+                for x in registered if not x.done())
             entry["task_errors"] = sorted(type(x.exception()).__name__ for x in tasks_at_call - earlier_lives
                                           if x.done() and not x.cancelled() and x.exception() is not None)
             if tasks_at_call & earlier_lives:
@@ -286,7 +309,7 @@ async def _drive_actor(case: dict[str, Any], log: list[Any]) -> None:
         for b in bg:
             b.cancel()
         for e in log:
-            if "t" in e and e["ev"] in ("enter", "exit"):
+            if "t" in e and (e["ev"] in ("enter", "exit") or e.get("abs")):
                 e["t"] = e["t"] - t0
     finally:
         Actor._restart_limit = saved_limit  # noqa: SLF001
@@ -412,6 +435,16 @@ def _judge_actor(case: dict[str, Any], log: list[Any], rec: Any) -> None:
             if not c["tasks_at_call_all_done"]:
                 rec.violation(c["what"] + "-returned-before-all-tasks-finished", {**w0, "call": c})
                 return
+            during = [e for e in log if e["ev"] == "extra" and e.get("by") == "run-logic"
+                      and c["t"] - 1e-9 <= e["t"] <= c["returned_at"] + 1e-9]
+            if during:
+                rec.bucket("task-added-while-" + ("stop" if c["what"] == "stop" else "wait") + "-is-waiting")
+            if c.get("registered_pending_at_return"):
+                # "cancels every task it spawned, returns only after all of them have finished ... extra tasks added
+                # at any time": a task registered with the service before the call returned is still running
+                rec.violation(c["what"] + "-returned-while-a-task-registered-with-the-service-is-still-running",
+                              {**w0, "call": c, "pending": c["registered_pending_at_return"]})
+                return
             if c["what"] == "stop":
                 if c["tasks_before"] == 0:
                     rec.bucket("stop-before-start" if not any(s < c["t"] for s in start_times) else "stop-after-completion")
@@ -460,9 +493,23 @@ async def _drive_service(case: dict[str, Any], log: dict[str, Any]) -> None:
             log["cancelled"].append(idx)
             if spec["on_cancel"] == "swallow":
                 return
+            if spec.get("spawn") is not None:
+                spawn(spec["spawn"])
             if spec["on_cancel"] == "exc":
                 raise RuntimeError("while cancelled")  # pylint: disable=raise-missing-from
             raise
+        except Exception:
+            if spec.get("spawn") is not None:
+                spawn(spec["spawn"])
+            raise
+
+    spawned: list[Any] = []
+
+    def spawn(d: float) -> None:
+        tk = asyncio.create_task(asyncio.sleep(d))
+        s._tasks.add(tk)  # noqa: SLF001  (what a task of the service does to hand a follow-up task to its service)
+        spawned.append(tk)
+        log.setdefault("spawned", []).append({"t": loop.time() - t0, "d": d})
 
     class Svc(BackgroundService):
         def start(self) -> None:
@@ -495,6 +542,7 @@ async def _drive_service(case: dict[str, Any], log: dict[str, Any]) -> None:
                 entry["group"] = sorted(type(x).__name__ for x in e.exceptions)
         entry["returned_at"] = loop.time() - t0
         entry["all_done"] = all(x.done() for x in tasks)
+        entry["spawned_pending_at_return"] = sum(1 for x in spawned if not x.done())
         entry["errors"] = sorted(type(x.exception()).__name__ for x in tasks
                                  if x.done() and not x.cancelled() and x.exception() is not None)
         entry["n_cancelled"] = sum(1 for x in tasks if x.done() and x.cancelled())
@@ -509,12 +557,21 @@ def _judge_service(case: dict[str, Any], log: dict[str, Any], rec: Any) -> None:
         if c["what"] in ("stop", "cancel+wait", "wait") and c["n_tasks"] > 0:
             if c["raised"] == "TimeoutError":
                 blockers = [t for t in case["tasks"] if t["outcome"] == "block" or t["d"] > 250]
+                # a never-ending follow-up task that nobody cancels (wait() does not cancel) keeps a wait waiting
+                endless = c["what"] != "stop" and any(sp["d"] > 250 and sp["t"] <= c["returned_at"] for sp in log.get("spawned", []))
+                if endless:
+                    continue
                 if c["what"] != "wait" or not blockers:
                     if not any(t["on_cancel"] == "swallow" and False for t in case["tasks"]):
                         rec.violation(c["what"] + "-did-not-return", w0)
                 continue
             if not c["all_done"]:
                 rec.violation(c["what"] + "-returned-before-all-tasks-finished", w0)
+                return
+            if any(c["t"] - 1e-9 <= sp["t"] <= c["returned_at"] + 1e-9 for sp in log.get("spawned", [])):
+                rec.bucket("service:task-added-while-stopping")
+            if c.get("spawned_pending_at_return"):
+                rec.violation(c["what"] + "-returned-while-a-task-registered-with-the-service-is-still-running", w0)
                 return
             if c["what"] == "stop":
                 got = [x for x in c.get("group", []) if x != "CancelledError"]
